@@ -163,6 +163,10 @@ func runJob(prog *ssa.Program, job Job, verbose bool) *JobResult {
 			cfg.MaxViolations = int(v)
 		case "MaxAlloc":
 			cfg.MaxAlloc = int(v)
+		case "Witnesses":
+			cfg.Witnesses = int(v)
+		case "WitnessEvery":
+			cfg.WitnessEvery = v
 		case "MaxDepth":
 			cfg.MaxDepth = int(v)
 		default:
